@@ -15,13 +15,13 @@ package timeheap
 global sumOf IntArr
 global-invariant forall a Int :: sel(sumOf, a) >= 0
 
-assume-func container/heap.Push(h, x)
+assume-func-here container/heap.Push(h, x)
   requires typeof(x) == typeid(*timeHeapEntry)
   modifies ghost(sumOf), *unbox(*timeHeap, h), allelems(*timeHeapEntry)
   ensures sumOf == upd(old(sumOf), unbox(*timeHeap, h), sel(old(sumOf), unbox(*timeHeap, h)) + unbox(*timeHeapEntry, x).count)
   ensures len(*unbox(*timeHeap, h)) == old(len(*unbox(*timeHeap, h))) + 1
 
-assume-func container/heap.Pop(h) (r)
+assume-func-here container/heap.Pop(h) (r)
   requires len(*unbox(*timeHeap, h)) > 0
   modifies ghost(sumOf), *unbox(*timeHeap, h), allelems(*timeHeapEntry)
   ensures r != nil && typeof(r) == typeid(*timeHeapEntry) && unbox(*timeHeapEntry, r) != nil
@@ -30,7 +30,7 @@ assume-func container/heap.Pop(h) (r)
   ensures len(*unbox(*timeHeap, h)) == 0 ==> sel(sumOf, unbox(*timeHeap, h)) == 0
   ensures sel(sumOf, unbox(*timeHeap, h)) >= 0
 
-assume-func container/heap.Init(h)
+assume-func-here container/heap.Init(h)
   modifies *unbox(*timeHeap, h), allelems(*timeHeapEntry)
 
 assume-func time.Now() (r)
